@@ -57,7 +57,8 @@ def judgeDump (c : JCase) (final : Bool) : List String :=
   let uuids := allOps.map SyncOp.uuid
   let keys := sortDedup (allOps.flatMap opKeys)
   let n := chain.length
-  let replayTxt := canonDB uuids keys (cs chain n)
+  let us := sortDedup uuids
+  let replayTxt := canonTable us keys (csTable us keys chain n)
   let conv := if !final then [] else c.reps.filterMap fun (r, base, nops, tasks) =>
     if base ≠ n ∨ nops ≠ 0 then some s!"converged not-quiescent rep{r} base={base} nops={nops} tip={n}"
     else if tasks ≠ replayTxt then some s!"converged diverged rep{r} has={tasks} replay={replayTxt}"
@@ -66,13 +67,14 @@ def judgeDump (c : JCase) (final : Bool) : List String :=
     match c.pends.find? (·.1 == r) with
     | none => none
     | some (_, pend) =>
-      let expect := canonDB uuids keys (applyL (cs chain base) pend)
+      let baseT := csTable us keys chain base
+      let expect := canonTable us keys (applyLTable us keys baseT pend)
       if tasks ≠ expect then some s!"invariant broken rep{r} has={tasks} base⊕pending={expect}"
-      else if !(decide (validL (cs chain base) pend)) then
+      else if !(decide (validL (dbOfTable baseT) pend)) then
         some s!"invariant pending-invalid rep{r} base={base} pending={pend.map opToks}"
       else none
   let snaps := c.snaps.filterMap fun (v, db) =>
-    let expect := canonDB uuids keys (cs chain v)
+    let expect := canonTable us keys (csTable us keys chain v)
     if v > n then some s!"snapshot for-unknown-version v{v}"
     else if db ≠ expect then some s!"snapshot wrong v{v} has={db} chain-state={expect}" else none
   let sent := c.sent.filterMap fun t =>
